@@ -98,6 +98,16 @@ func optsFromName(name string) api.TransformOptions {
 			case "neutral":
 				o.Platform = api.PlatformNeutral
 			}
+		case f == "target=es5":
+			o.Target = api.ES5
+		case f == "drop=console":
+			o.Drop = api.DropConsole | api.DropDebugger
+		case strings.HasPrefix(f, "mp="):
+			o.MangleProps = f[3:]
+		case strings.HasPrefix(f, "sourcemap=inline"):
+			o.Sourcemap = api.SourceMapInline
+		case strings.HasPrefix(f, "global="):
+			o.GlobalName = f[7:]
 		case strings.HasPrefix(f, "engine="):
 			// engine=chrome:80
 			kv := strings.SplitN(f[7:], ":", 2)
